@@ -104,3 +104,10 @@ def load_from_files(paths, src):
     L.mir_seconds = 0
     L.mir_hash = hashlib.sha256(''.join(t for _, t in texts).encode()).hexdigest()[:16]
     return L
+
+
+def load_from_dir(d):
+    """development only: d contains mir.txt, mir_ct.txt and r/ (a copy of the repo)"""
+    dep = find_dep_src(os.path.join(d, 'r'), 'chunked_transfer')
+    return load_from_files([('tiny_http', os.path.join(d, 'mir.txt')), ('chunked_transfer', os.path.join(d, 'mir_ct.txt'))],
+                           {'tiny_http': os.path.join(d, 'r'), 'chunked_transfer': dep})
